@@ -10,6 +10,7 @@ require (
 	github.com/mattn/go-sqlite3 v1.14.23
 	github.com/zclconf/go-cty v1.15.0
 	golang.org/x/crypto v0.27.0
+	golang.org/x/text v0.18.0
 )
 
 require (
@@ -36,7 +37,6 @@ require (
 	golang.org/x/image v0.20.0 // indirect
 	golang.org/x/net v0.29.0 // indirect
 	golang.org/x/sys v0.25.0 // indirect
-	golang.org/x/text v0.18.0 // indirect
 	google.golang.org/protobuf v1.34.2 // indirect
 	gopkg.in/yaml.v3 v3.0.1 // indirect
 )
